@@ -79,6 +79,11 @@ func phiLeaves(v ssa.Value) []ssa.Value {
 			}
 			return
 		}
+		// type conversions between a named slice/integer type and its underlying type do not change the value
+		if ct, ok := x.(*ssa.ChangeType); ok {
+			walk(ct.X)
+			return
+		}
 		out = append(out, x)
 	}
 	walk(v)
@@ -168,4 +173,29 @@ func anyName(re string) string {
 		}
 		return PH
 	})
+}
+
+// phiByLeaves: the last phi of fn (highest block) whose leaves all render to a term accepted by pred: a variable is
+// identified by the set of values it can take, not by its name.
+func phiByLeaves(c *Ctx, fn *ssa.Function, pred func(term string) bool) *ssa.Phi {
+	var best *ssa.Phi
+	for _, b := range fn.Blocks {
+		for _, ins := range b.Instrs {
+			p, ok := ins.(*ssa.Phi)
+			if !ok {
+				continue
+			}
+			leaves := phiLeaves(p)
+			okAll := len(leaves) > 0
+			for _, l := range leaves {
+				if !pred(c.termOf(fn, l)) {
+					okAll = false
+				}
+			}
+			if okAll && (best == nil || p.Block().Index > best.Block().Index) {
+				best = p
+			}
+		}
+	}
+	return best
 }
